@@ -51,6 +51,53 @@ fn ood_hashes<B: Fld, E: FieldElement<BaseField = B>, H: ElementHasher<BaseField
     Ok((H::hash_elements(&els).as_bytes(), H::hash_elements(&evals).as_bytes()))
 }
 
+/// little-endian integer of at most 16 bytes as a residue
+fn le_int(b: &[u8]) -> u128 {
+    let mut v = [0u8; 16];
+    v[..b.len()].copy_from_slice(b);
+    u128::from_le_bytes(v)
+}
+
+/// reference encoding of the proof context into coin-seed elements: (main width, #aux segments
+/// [, aux width, aux rands]) packed into one element; trace length; trace metadata in chunks of
+/// ELEMENT_BYTES - 1 bytes, zero padded; the metadata length if there is metadata; the two halves of
+/// the field modulus bytes; (extension, folding factor, remainder max degree) packed; grinding;
+/// blowup; number of queries
+fn ref_context_elements<B: Fld>(proof: &Proof) -> Vec<B> {
+    let ti = proof.trace_info();
+    let o = proof.options();
+    let mut out: Vec<u128> = Vec::new();
+    let mut buf = ti.main_trace_width() as u128;
+    buf = (buf << 8) | ti.num_aux_segments() as u128;
+    if ti.num_aux_segments() == 1 {
+        buf = (buf << 8) | ti.aux_segment_width() as u128;
+        buf = (buf << 8) | ti.get_num_aux_segment_rand_elements() as u128;
+    }
+    out.push(buf);
+    out.push(ti.length() as u128);
+    for chunk in ti.meta().chunks(B::ELEMENT_BYTES - 1) {
+        out.push(le_int(chunk));
+    }
+    if !ti.meta().is_empty() {
+        out.push(ti.meta().len() as u128);
+    }
+    let m = proof.context.field_modulus_bytes();
+    let (m1, m2) = m.split_at(m.len() / 2);
+    out.push(le_int(m1));
+    out.push(le_int(m2));
+    let ext = match o.field_extension() {
+        FieldExtension::None => 1u128,
+        FieldExtension::Quadratic => 2,
+        FieldExtension::Cubic => 3,
+    };
+    let fo = o.to_fri_options();
+    out.push((ext << 16) | ((fo.folding_factor() as u128) << 8) | fo.remainder_max_degree() as u128);
+    out.push(o.grinding_factor() as u128);
+    out.push(o.blowup_factor() as u128);
+    out.push(o.num_queries() as u128);
+    out.into_iter().map(B::from_res).collect()
+}
+
 fn spec<B: Fld, H: ElementHasher<BaseField = B>>(inst: &Instance, proof: &Proof) -> Result<Vec<Step>, String> {
     let shape = &inst.shape;
     let values: Vec<Vec<B>> = inst.values.iter().map(|c| c.iter().map(|v| B::from_res(*v)).collect()).collect();
@@ -60,7 +107,12 @@ fn spec<B: Fld, H: ElementHasher<BaseField = B>>(inst: &Instance, proof: &Proof)
     let layers = proof.options().to_fri_options().num_fri_layers(lde);
     let nseg = proof.trace_info().num_segments();
     let (troots, croot, froots) = proof.commitments.clone().parse::<H>(nseg, layers).map_err(|e| format!("commitments: {e}"))?;
-    let mut seed: Vec<B> = proof.context.to_elements();
+    // the context elements are recomputed from the decoded fields with the documented layout, not
+    // with the library's to_elements()
+    let mut seed: Vec<B> = ref_context_elements::<B>(proof);
+    if seed != <winter_air::proof::Context as ToElements<B>>::to_elements(&proof.context) {
+        return Err(format!("context.to_elements() departs from the documented layout (trace metadata of {} bytes)", proof.trace_info().meta().len()));
+    }
     seed.extend(pubs.to_elements());
     let mut seed_bytes = Vec::new();
     for e in &seed {
@@ -327,6 +379,15 @@ fn case(i: u64, rng: &mut Rng, st: &mut State) {
     let mut shape = Shape::random(rng, &lim);
     if i % 6 == 0 && shape.aux.is_none() {
         shape.aux = Some(AuxShape { cols: 1 + (i as usize / 6) % 2, rands: (i as usize / 12) % 3, lagrange: i % 12 == 0 });
+    }
+    // trace metadata at the element-chunk boundaries of the three fields
+    if i % 3 == 2 {
+        let lens = [1usize, 2, 3, 6, 7, 8, 9, 14, 15, 16, 17, 22, 23, 24, 29, 30, 31, 32, 33, 45, 46, 50, 64, 100, 226, 255, 1000];
+        let l = lens[rng.usize(lens.len())];
+        shape.meta = rng.bytes(l);
+        if rng.chance(1, 3) {
+            shape.meta[l - 1] = 0;
+        }
     }
     let shape = Arc::new(shape);
     let mut options = random_options(rng, &shape, ext, 32);
